@@ -64,9 +64,10 @@ def run(tier):
         v = res[c["id"]]
         rules = rules_of[c["id"]]
         cul = culprit.get(c["id"], rules[0] if len(rules) == 1 else "generator")
-        if c["src"] not in trig_cache:
-            trig_cache[c["src"]] = sc.trigger_andor_multi(sc.parse_nodes(c["src"]))
-        sig = {"kind": "behaviour" if v["verdict"] == "differ" else "failure", "culprit": cul, "trigger_andor_multi": trig_cache[c["src"]],
+        step_src = sc.STEP_INPUT.get(c["id"], c["src"])
+        if step_src not in trig_cache:
+            trig_cache[step_src] = sc.trigger_andor_multi(sc.parse_nodes(step_src))
+        sig = {"kind": "behaviour" if v["verdict"] == "differ" else "failure", "culprit": cul, "trigger_andor_multi": trig_cache[step_src],
                "generator": c["generator"], "cfg": c["cfg"], "what": (v.get("detail") or {}).get("what", v.get("status", ""))[:120],
                "body": c["body"][:200]}
         payload = {"id": c["id"], "src": c["src"], "rules": c["rules"], "generator": c["generator"], "out": v.get("out", ""), "detail": v.get("detail")}
